@@ -359,6 +359,16 @@ func (ssc *StatefulSetController) adoptOrphanRevisions(set *apps.StatefulSet) er
 		}
 	}
 	if hasOrphans {
+		fresh, err := ssc.pcClient.AppsV1().StatefulSets(set.Namespace).Get(context.TODO(), set.Name, metav1.GetOptions{})
+		if err != nil {
+			return err
+		}
+		if fresh.UID != set.UID {
+			return fmt.Errorf("original StatefulSet %v/%v is gone: got uid %v, wanted %v", set.Namespace, set.Name, fresh.UID, set.UID)
+		}
+		if fresh.DeletionTimestamp != nil {
+			return fmt.Errorf("%v/%v has just been deleted at %v", set.Namespace, set.Name, fresh.DeletionTimestamp)
+		}
 		for i := range revisions {
 			if shouldSyncLabels(revisions[i]) {
 				revisions[i], err = syncLabels(ssc.kubeClient, set, revisions[i])
@@ -366,13 +376,6 @@ func (ssc *StatefulSetController) adoptOrphanRevisions(set *apps.StatefulSet) er
 					return err
 				}
 			}
-		}
-		fresh, err := ssc.pcClient.AppsV1().StatefulSets(set.Namespace).Get(context.TODO(), set.Name, metav1.GetOptions{})
-		if err != nil {
-			return err
-		}
-		if fresh.UID != set.UID {
-			return fmt.Errorf("original StatefulSet %v/%v is gone: got uid %v, wanted %v", set.Namespace, set.Name, fresh.UID, set.UID)
 		}
 		// adopt the orphans only, revisions which are already controlled by the set need no adoption
 		orphanRevisions := make([]*kubeapps.ControllerRevision, 0, len(revisions))
